@@ -50,15 +50,40 @@ pub struct Census {
     pub class: String,
     pub reason: String,
     pub n_decisions: usize,
+    /// harness instrument: invariant string found in the space-group table
+    /// (None: instrument not available for this run)
+    pub passes_filter: Option<bool>,
 }
 
 impl Census {
-    /// passes the invariant filter: reaches cover construction / simplify
+    pub fn from_record(r: &crate::exec::Record) -> Census {
+        let passes_filter = if r.notes.iter().any(|n| n == "filter:pass") {
+            Some(true)
+        } else if r.notes.iter().any(|n| n == "filter:fail") {
+            Some(false)
+        } else {
+            None
+        };
+        Census { class: r.outcome.clone(), reason: r.detail.clone(), n_decisions: r.decisions.len(), passes_filter }
+    }
+
+    /// passes the invariant filter: reaches cover construction / simplify.
+    /// Decided by the harness's own table lookup; the reason string is only a
+    /// fallback when the instrument is unavailable.
     pub fn interesting(&self) -> bool {
-        !(self.class == "no" && self.reason == REASON_INVARIANTS) && !self.class.is_empty()
+        if self.class.is_empty() {
+            return false;
+        }
+        if self.class != "no" || self.n_decisions > 0 {
+            return true;
+        }
+        match self.passes_filter {
+            Some(b) => b,
+            None => self.reason != REASON_INVARIANTS,
+        }
     }
     pub fn has_ptc(&self) -> bool {
-        self.interesting() && !(self.class == "no" && self.reason == REASON_NO_COVER) && self.class != "panic"
+        self.interesting() && self.class != "panic" && (self.class != "no" || self.n_decisions > 0 || self.reason != REASON_NO_COVER)
     }
 }
 
@@ -96,6 +121,7 @@ impl Planner {
                 rec_states: false,
                 deep: false,
                 want_inv: false,
+                classify: false,
             },
             rng,
         )
@@ -106,7 +132,8 @@ impl Planner {
         entries
             .iter()
             .map(|e| {
-                let (s, _) = self.base_spec(&e.id, &e.text, Op::IsEuclidean);
+                let (mut s, _) = self.base_spec(&e.id, &e.text, Op::IsEuclidean);
+                s.classify = true;
                 s
             })
             .collect()
